@@ -208,52 +208,6 @@ func runBatch(run *sim.Run, batch int) {
 		return
 	}
 	me := w.Vals[0]
-	// requests
-	nReq := 120
-	var reqs []*reqInfo
-	txs = nil
-	for i := 0; i < nReq; i++ {
-		n := rng.Range(1, 6)
-		if rng.Chance(1, 10) {
-			n = rng.Range(10, 16)
-		}
-		var ids []int64
-		for j := 0; j < n; j++ {
-			ids = append(ids, int64(rng.Range(1, nDS))) // repeated data sources happen
-		}
-		call := fmt.Sprintf("c%d", rng.Intn(5))
-		ask := uint64(rng.Range(1, nVals))
-		msg := oracletypes.NewMsgRequestData(sim.ScriptComplex, sim.ComplexCalldata(ids, call), ask, 1, "c19", sdk.NewCoins(), 400_000, 2_000_000,
-			w.Users[i%2].Addr, oracletypes.ENCODER_UNSPECIFIED)
-		txs = append(txs, w.SignTx(w.Users[i%2], msg))
-		reqs = append(reqs, &reqInfo{ids: ids, call: call})
-	}
-	resp, err := w.Block(txs, time.Second)
-	if err != nil {
-		violate("finalize-block-failed", err.Error(), nil)
-		return
-	}
-	nMe := 0
-	for i, tr := range resp.TxResults {
-		if tr.Code != 0 {
-			run.Inconclusive(fmt.Sprintf("batch %d: request tx %d rejected: %s", batch, i, tr.Log))
-			return
-		}
-		r := reqs[i]
-		for _, ev := range sim.EventsOf(tr.Events, oracletypes.EventTypeRequest) {
-			r.id, _ = strconv.ParseUint(sim.Attr(ev, "id"), 10, 64)
-			r.chosen = sim.Attrs(ev, "validator")
-			for _, v := range r.chosen {
-				if v == me.Val.String() {
-					r.hasMe = true
-				}
-			}
-		}
-		r.txres = abci.TxResult{Height: w.Height, Index: uint32(i), Tx: txs[i], Result: *tr}
-		if r.hasMe {
-			nMe++
-		}
-	}
 	// yoda context
 	home, _ := os.MkdirTemp("", "verif-yoda-")
 	defer os.RemoveAll(home)
@@ -284,7 +238,7 @@ func runBatch(run *sim.Run, batch int) {
 	}
 	ex := &execStub{stats: map[string]int{}, chain: chainID}
 	c := yoda.VerifNewContext(yoda.VerifOptions{App: w.App, Client: stub, Validator: me.Val, Keyring: kb, Keys: keys, ChainID: chainID,
-		Executor: ex, FileCacheDir: home + "/files", MaxTry: 5, RPCPollInterval: 200 * time.Microsecond, PendingBuffer: nReq * 2})
+		Executor: ex, FileCacheDir: home + "/files", MaxTry: 5, RPCPollInterval: 200 * time.Microsecond, PendingBuffer: 400})
 	// yoda's logger writes to os.Stdout as captured at construction: silence it
 	devnull, _ := os.OpenFile(os.DevNull, os.O_WRONLY, 0)
 	realStdout := os.Stdout
@@ -292,151 +246,231 @@ func runBatch(run *sim.Run, batch int) {
 	l := yoda.VerifNewLogger()
 	os.Stdout = realStdout
 	defer devnull.Close()
-	base := runtime.NumGoroutine()
-	// fire all tx events concurrently, as the event loop does
-	order := rng.Perm(len(reqs))
-	for _, i := range order {
-		go yoda.VerifHandleTransaction(c, l, reqs[i].txres)
-	}
-	// quiescence: all goroutines spawned by the handlers are gone. If nothing changes for a long
-	// time while goroutines remain, they are blocked: go on and let the report count decide.
-	deadline := time.Now().Add(300 * time.Second)
-	lastN, lastChange := runtime.NumGoroutine(), time.Now()
-	for runtime.NumGoroutine() > base {
-		if n := runtime.NumGoroutine(); n != lastN {
-			lastN, lastChange = n, time.Now()
+	// one phase = a block of requests handed concurrently to the SAME yoda context, then everything it queued is judged
+	totalReqs, totalMe := 0, 0
+	phase := func(nReq int) bool {
+		var reqs []*reqInfo
+		txs = nil
+		for i := 0; i < nReq; i++ {
+			n := rng.Range(1, 6)
+			if rng.Chance(1, 10) {
+				n = rng.Range(10, 16)
+			}
+			var ids []int64
+			for j := 0; j < n; j++ {
+				ids = append(ids, int64(rng.Range(1, nDS))) // repeated data sources happen
+			}
+			call := fmt.Sprintf("c%d", rng.Intn(5))
+			ask := uint64(rng.Range(1, nVals))
+			msg := oracletypes.NewMsgRequestData(sim.ScriptComplex, sim.ComplexCalldata(ids, call), ask, 1, "c19", sdk.NewCoins(), 400_000, 2_000_000,
+				w.Users[i%2].Addr, oracletypes.ENCODER_UNSPECIFIED)
+			txs = append(txs, w.SignTx(w.Users[i%2], msg))
+			reqs = append(reqs, &reqInfo{ids: ids, call: call})
 		}
-		if time.Since(lastChange) > 20*time.Second {
-			run.Count("goroutines-blocked-at-quiescence", lastN-base)
+		resp, err := w.Block(txs, time.Second)
+		if err != nil {
+			violate("finalize-block-failed", err.Error(), nil)
+			return false
+		}
+		nMe := 0
+		for i, tr := range resp.TxResults {
+			if tr.Code != 0 {
+				run.Inconclusive(fmt.Sprintf("batch %d: request tx %d rejected: %s", batch, i, tr.Log))
+				return false
+			}
+			r := reqs[i]
+			for _, ev := range sim.EventsOf(tr.Events, oracletypes.EventTypeRequest) {
+				r.id, _ = strconv.ParseUint(sim.Attr(ev, "id"), 10, 64)
+				r.chosen = sim.Attrs(ev, "validator")
+				for _, v := range r.chosen {
+					if v == me.Val.String() {
+						r.hasMe = true
+					}
+				}
+			}
+			r.txres = abci.TxResult{Height: w.Height, Index: uint32(i), Tx: txs[i], Result: *tr}
+			if r.hasMe {
+				nMe++
+			}
+		}
+		base := runtime.NumGoroutine()
+		// fire all tx events concurrently, as the event loop does
+		order := rng.Perm(len(reqs))
+		for _, i := range order {
+			go yoda.VerifHandleTransaction(c, l, reqs[i].txres)
+		}
+		// quiescence: all goroutines spawned by the handlers are gone. If nothing changes for a long
+		// time while goroutines remain, they are blocked: go on and let the report count decide.
+		deadline := time.Now().Add(300 * time.Second)
+		lastN, lastChange := runtime.NumGoroutine(), time.Now()
+		for runtime.NumGoroutine() > base {
+			if n := runtime.NumGoroutine(); n != lastN {
+				lastN, lastChange = n, time.Now()
+			}
+			if time.Since(lastChange) > 20*time.Second {
+				run.Count("goroutines-blocked-at-quiescence", lastN-base)
+				break
+			}
+			if time.Now().After(deadline) {
+				run.Inconclusive(fmt.Sprintf("batch %d: %d goroutines still running after 300s", batch, runtime.NumGoroutine()-base))
+				run.Count("watchdog-fired", 1)
+				return false
+			}
+			time.Sleep(2 * time.Millisecond)
+		}
+		// drain
+		got := map[uint64][]*oracletypes.MsgReportData{}
+		var orderSeen []uint64
+		for {
+			select {
+			case m := <-yoda.VerifPending(c):
+				msg := m.VerifMsg()
+				got[uint64(msg.RequestID)] = append(got[uint64(msg.RequestID)], msg)
+				orderSeen = append(orderSeen, uint64(msg.RequestID))
+				continue
+			default:
+			}
 			break
 		}
-		if time.Now().After(deadline) {
-			run.Inconclusive(fmt.Sprintf("batch %d: %d goroutines still running after 300s", batch, runtime.NumGoroutine()-base))
-			run.Count("watchdog-fired", 1)
-			return
-		}
-		time.Sleep(2 * time.Millisecond)
-	}
-	// drain
-	got := map[uint64][]*oracletypes.MsgReportData{}
-	var orderSeen []uint64
-	for {
-		select {
-		case m := <-yoda.VerifPending(c):
-			msg := m.VerifMsg()
-			got[uint64(msg.RequestID)] = append(got[uint64(msg.RequestID)], msg)
-			orderSeen = append(orderSeen, uint64(msg.RequestID))
-			continue
-		default:
-		}
-		break
-	}
-	run.Distinct(fmt.Sprint(orderSeen)) // distinct completion orders
-	var deliver [][]byte
-	for _, r := range reqs {
-		ms := got[r.id]
-		if !r.hasMe {
-			if len(ms) != 0 {
-				violate("report-for-foreign-request", fmt.Sprintf("request %d does not select the validator but %d reports were queued", r.id, len(ms)), nil)
-				return
-			}
-			run.Count("requests-not-selecting-me-skipped", 1)
-			continue
-		}
-		if len(ms) != 1 {
-			violate("report-count", fmt.Sprintf("request %d (raw requests %v) selects the validator: %d reports queued, expected exactly 1", r.id, r.ids, len(ms)), nil)
-			return
-		}
-		msg := ms[0]
-		if err := msg.ValidateBasic(); err != nil {
-			violate("report-validate-basic", fmt.Sprintf("request %d: %v", r.id, err), nil)
-			return
-		}
-		if msg.Validator != me.Val.String() {
-			violate("report-validator", msg.Validator, nil)
-			return
-		}
-		if len(msg.RawReports) != len(r.ids) {
-			violate("raw-report-count", fmt.Sprintf("request %d: %d raw reports for %d raw requests", r.id, len(msg.RawReports), len(r.ids)), nil)
-			return
-		}
-		seen := map[int64]bool{}
-		for _, rr := range msg.RawReports {
-			e := int64(rr.ExternalID)
-			if e < 0 || e >= int64(len(r.ids)) || seen[e] {
-				violate("raw-report-external-id", fmt.Sprintf("request %d: external id %d unexpected/duplicate", r.id, e), nil)
-				return
-			}
-			seen[e] = true
-			dsID := r.ids[e]
-			if fetchFails[dsID] {
-				run.Count("raw:fetch-failed-255", 1)
-				if rr.ExitCode != 255 {
-					violate("fetch-failure-exit-code", fmt.Sprintf("request %d ext %d: data source %d could not be fetched but exit code is %d (data %q)", r.id, e, dsID, rr.ExitCode, rr.Data), nil)
-					return
+		run.Distinct(fmt.Sprint(orderSeen)) // distinct completion orders
+		var deliver [][]byte
+		for _, r := range reqs {
+			ms := got[r.id]
+			if !r.hasMe {
+				if len(ms) != 0 {
+					violate("report-for-foreign-request", fmt.Sprintf("request %d does not select the validator but %d reports were queued", r.id, len(ms)), nil)
+					return false
 				}
+				run.Count("requests-not-selecting-me-skipped", 1)
 				continue
 			}
-			o := outcomeFor(execs[dsID-1], r.call)
-			switch {
-			case o.err:
-				run.Count("raw:executor-error-255", 1)
-				if rr.ExitCode != 255 {
-					violate("executor-error-exit-code", fmt.Sprintf("request %d ext %d: executor failed but exit code %d", r.id, e, rr.ExitCode), nil)
-					return
+			if len(ms) != 1 {
+				violate("report-count", fmt.Sprintf("request %d (raw requests %v) selects the validator: %d reports queued, expected exactly 1", r.id, r.ids, len(ms)), nil)
+				return false
+			}
+			msg := ms[0]
+			if err := msg.ValidateBasic(); err != nil {
+				violate("report-validate-basic", fmt.Sprintf("request %d: %v", r.id, err), nil)
+				return false
+			}
+			if msg.Validator != me.Val.String() {
+				violate("report-validator", msg.Validator, nil)
+				return false
+			}
+			if len(msg.RawReports) != len(r.ids) {
+				violate("raw-report-count", fmt.Sprintf("request %d: %d raw reports for %d raw requests", r.id, len(msg.RawReports), len(r.ids)), nil)
+				return false
+			}
+			seen := map[int64]bool{}
+			for _, rr := range msg.RawReports {
+				e := int64(rr.ExternalID)
+				if e < 0 || e >= int64(len(r.ids)) || seen[e] {
+					violate("raw-report-external-id", fmt.Sprintf("request %d: external id %d unexpected/duplicate", r.id, e), nil)
+					return false
 				}
-			default:
-				if o.code != 0 {
-					run.Count("raw:nonzero-exit", 1)
-				} else {
-					run.Count("raw:success", 1)
+				seen[e] = true
+				dsID := r.ids[e]
+				if fetchFails[dsID] {
+					run.Count("raw:fetch-failed-255", 1)
+					if rr.ExitCode != 255 {
+						violate("fetch-failure-exit-code", fmt.Sprintf("request %d ext %d: data source %d could not be fetched but exit code is %d (data %q)", r.id, e, dsID, rr.ExitCode, rr.Data), nil)
+						return false
+					}
+					continue
 				}
-				if rr.ExitCode != o.code || string(rr.Data) != string(o.output) {
-					violate("raw-report-content", fmt.Sprintf("request %d ext %d ds %d (exec len %d): got (%d,%q) executor returned (%d,%q)", r.id, e, dsID, len(execs[dsID-1]), rr.ExitCode, rr.Data, o.code, o.output), nil)
-					return
+				o := outcomeFor(execs[dsID-1], r.call)
+				switch {
+				case o.err:
+					run.Count("raw:executor-error-255", 1)
+					if rr.ExitCode != 255 {
+						violate("executor-error-exit-code", fmt.Sprintf("request %d ext %d: executor failed but exit code %d", r.id, e, rr.ExitCode), nil)
+						return false
+					}
+				default:
+					if o.code != 0 {
+						run.Count("raw:nonzero-exit", 1)
+					} else {
+						run.Count("raw:success", 1)
+					}
+					if rr.ExitCode != o.code || string(rr.Data) != string(o.output) {
+						violate("raw-report-content", fmt.Sprintf("request %d ext %d ds %d (exec len %d): got (%d,%q) executor returned (%d,%q)", r.id, e, dsID, len(execs[dsID-1]), rr.ExitCode, rr.Data, o.code, o.output), nil)
+						return false
+					}
+				}
+				if len(execs[dsID-1]) < 32 {
+					run.Count("raw:executable-shorter-than-32-bytes", 1)
 				}
 			}
-			if len(execs[dsID-1]) < 32 {
-				run.Count("raw:executable-shorter-than-32-bytes", 1)
+			cctx, _ := w.Ctx().CacheContext()
+			if err := w.App.OracleKeeper.CheckValidReport(cctx, oracletypes.RequestID(r.id), me.Val, msg.RawReports); err != nil {
+				violate("report-rejected-by-keeper", fmt.Sprintf("request %d: %v", r.id, err), nil)
+				return false
+			}
+			deliver = append(deliver, w.SignTx(me, msg))
+			run.Count("reports-checked", 1)
+			if len(r.ids) >= 10 {
+				run.Count("reports-with-10+-raw-requests", 1)
 			}
 		}
-		cctx, _ := w.Ctx().CacheContext()
-		if err := w.App.OracleKeeper.CheckValidReport(cctx, oracletypes.RequestID(r.id), me.Val, msg.RawReports); err != nil {
-			violate("report-rejected-by-keeper", fmt.Sprintf("request %d: %v", r.id, err), nil)
-			return
+		ex.mu.Lock()
+		bad := append([]string{}, ex.bad...)
+		ex.mu.Unlock()
+		if len(bad) > 0 {
+			violate("executor-env", fmt.Sprint(bad[:1]), nil)
+			return false
 		}
-		deliver = append(deliver, w.SignTx(me, msg))
-		run.Count("reports-checked", 1)
-		if len(r.ids) >= 10 {
-			run.Count("reports-with-10+-raw-requests", 1)
+		// the chain accepts every report
+		resp, err = w.Block(deliver, time.Second)
+		if err != nil {
+			violate("finalize-block-failed", err.Error(), nil)
+			return false
 		}
+		for i, tr := range resp.TxResults {
+			if tr.Code != 0 {
+				violate("report-rejected-by-chain", fmt.Sprintf("report tx %d: %s/%d %s", i, tr.Codespace, tr.Code, tr.Log), nil)
+				return false
+			}
+		}
+		run.Count("reports-accepted-by-chain", len(deliver))
+		totalReqs += len(reqs)
+		totalMe += nMe
+		return true
 	}
-	ex.mu.Lock()
-	bad := append([]string{}, ex.bad...)
-	ex.mu.Unlock()
-	if len(bad) > 0 {
-		violate("executor-env", fmt.Sprint(bad[:1]), nil)
+	if !phase(120) {
 		return
 	}
-	// the chain accepts every report
-	resp, err = w.Block(deliver, time.Second)
+	// the owner replaces the executables of some data sources; requests that follow must be answered with what the
+	// executable registered NOW returns (a daemon that runs for weeks sees such edits)
+	var edits [][]byte
+	for k := 0; k < 3; k++ {
+		i := rng.Intn(nDS)
+		ne := rng.Bytes(sim.Pick(rng, []int{4, 40, 700}))
+		ne[0] = byte('A' + i)
+		execs[i] = ne
+		delete(fetchFails, int64(i+1))
+		edits = append(edits, w.SignTx(me, oracletypes.NewMsgEditDataSource(oracletypes.DataSourceID(i+1), fmt.Sprintf("ds%d", i+1), "edited", ne, sdk.NewCoins(), w.Users[0].Addr, me.Addr, me.Addr)))
+	}
+	eresp, err := w.Block(edits, time.Second)
 	if err != nil {
 		violate("finalize-block-failed", err.Error(), nil)
 		return
 	}
-	for i, tr := range resp.TxResults {
+	for i, tr := range eresp.TxResults {
 		if tr.Code != 0 {
-			violate("report-rejected-by-chain", fmt.Sprintf("report tx %d: %s/%d %s", i, tr.Codespace, tr.Code, tr.Log), nil)
+			run.Inconclusive(fmt.Sprintf("batch %d: data source edit %d rejected: %s", batch, i, tr.Log))
 			return
 		}
 	}
-	run.Count("reports-accepted-by-chain", len(deliver))
+	run.Count("data-sources-edited-while-the-daemon-runs", len(edits))
+	if !phase(40) {
+		return
+	}
 	stub.mu.Lock()
 	for k, v := range stub.stats {
 		run.Count(k, v)
 	}
 	stub.mu.Unlock()
-	run.Count("goroutines-started(lower bound)", len(reqs)+nMe)
+	run.Count("goroutines-started(lower bound)", totalReqs+totalMe)
 	run.Eval(1)
 	if batch < 2 {
 		var faults []string
@@ -444,7 +478,7 @@ func runBatch(run *sim.Run, batch int) {
 			faults = append(faults, fmt.Sprintf("%s..:%d", h[:8], f))
 		}
 		sort.Strings(faults)
-		run.Sample(map[string]any{"batch": batch, "requests": nReq, "selecting_me": nMe, "exec_lengths": lensOf(execs), "fetch_faults": faults})
+		run.Sample(map[string]any{"batch": batch, "requests": totalReqs, "selecting_me": totalMe, "exec_lengths": lensOf(execs), "fetch_faults": faults})
 	}
 }
 
@@ -482,7 +516,7 @@ func main() {
 	}
 	for _, cn := range []string{"reports-checked", "raw:success", "raw:nonzero-exit", "raw:executor-error-255", "raw:fetch-failed-255",
 		"raw:executable-shorter-than-32-bytes", "requests-not-selecting-me-skipped", "rpc:transient-error", "rpc:data-nonzero-code", "rpc:data-persistent-error",
-		"reports-with-10+-raw-requests", "reports-accepted-by-chain"} {
+		"reports-with-10+-raw-requests", "reports-accepted-by-chain", "data-sources-edited-while-the-daemon-runs"} {
 		run.Require(cn, 1)
 	}
 	run.Finish()
